@@ -384,6 +384,10 @@ class SymH:
 
     # ------------------------------------------------------------ logic
     def ev(self, expr, /, **env):
+        for k_, v_ in env.items():
+            if isinstance(v_, z3.ExprRef):
+                # a raw solver term is not an interpreter value (it would be compared by python identity): harness bug
+                raise TypeError('harness passes a raw z3 term as %r; wrap it in SV(term, kind)' % k_)
         tree = ast.parse(expr.strip(), mode='eval').body
         e = Env(dict(env), None, None)
         return self.I.eval(tree, e)
